@@ -42,11 +42,6 @@ Definition rate_at (lk : lookup) (f : list pentry) (target c : list N) (t_txn : 
                else best) f None.
 
 (* ---- hypotheses on the price file ---- *)
-(* every instant is below jiff's Timestamp::MAX (9999-12-30T22:00:00.999999999Z), the sentinel
-   used for last-price *)
-Definition below_ts_max (f : list pentry) : Prop := forall e, In e f -> pe_ts e < TS_MAX.
-Definition file_ok (lk : lookup) (f : list pentry) : Prop :=
-  distinct_keys f /\ (lk = LkLastPrice -> below_ts_max f).
 (* no line prices the report commodity in itself (`P .. EUR 2 EUR`) *)
 Definition is_self_pair (target : list N) (e : pentry) : bool :=
   str_eqb (pe_base e) target && str_eqb (pe_eq e) target.
@@ -149,5 +144,13 @@ Fixpoint distinct_keys_b (f : list pentry) : bool :=
   | [] => true
   | e :: f' => negb (existsb (pe_eqb e) f') && distinct_keys_b f'
   end.
-Definition below_ts_max_b (f : list pentry) : bool := forallb (fun e => pe_ts e <? TS_MAX) f.
 Definition has_self_pair_b (target : list N) (f : list pentry) : bool := existsb (is_self_pair target) f.
+
+(* ---- "the rates shown in the metadata are the ones applied" (fixed modes) ----
+   a listed record is applied when every posting of the set that has its commodity is valued with it *)
+Definition is_fixed (lk : lookup) : Prop :=
+  match lk with LkLastPrice | LkGivenTime _ => True | _ => False end.
+Definition RecordApplied (lk : lookup) (txns : list txn) (target : list N) (f : list pentry) (r : prec) : Prop :=
+  forall tx p, In tx txns -> In p (t_posts tx) -> p_comm p = pr_source r -> p_comm p <> [] ->
+    exists e rate, pr_used r = Some (pe_ts e, rate) /\ dcmp rate (pe_rate e) = Eq /\
+                   convert_one lk txns target f (h_inst (t_hdr tx)) p = converted lk target p e.
